@@ -59,10 +59,31 @@ def run_client(pid, tier, rep, design_cfgs, asis, groups, nscen):
     total, accepted, foreign = 0, 0, 0
     foreign_keys = {}
     nontrivial = set()
+    nscripts = 0
     for g in groups:
         path = os.path.join(wd, "trace-%s.ndjson" % g)
         vlib.vh(["record", "client", g, str(nscen), path], timeout=1800)
         scs = vlib.split_scenarios(path)
+        # ---- spec -> implementation -> spec: environment scripts projected from simulated behaviours of Client.tla
+        # (Gen_Client.tla), run against the real client, the recorded executions validated like the others
+        gen = vlib.tlc("Gen_Client", "GC_%s.cfg" % g, workers=1, simulate=max(60, (nscen * 3) // 5), depth=500, coverage=False,
+                       timeout=900, tag="gen-%s-%s" % (pid, g))
+        if len(gen["replay"]) < 20:
+            raise vlib.ToolError("script generation for group %s produced only %d scripts" % (g, len(gen["replay"])))
+        spath = os.path.join(wd, "scripts-%s.ndjson" % g)
+        with open(spath, "w") as f:
+            for r in gen["replay"]:
+                f.write(json.dumps(r) + "\n")
+        tpath = os.path.join(wd, "trace-scripted-%s.ndjson" % g)
+        vlib.vh(["record", "clientscript", g, spath, tpath], timeout=1800)
+        sscs = vlib.split_scenarios(tpath)
+        if len(sscs) != len(gen["replay"]):
+            raise vlib.ToolError("scripted run of group %s recorded %d scenarios for %d scripts" % (g, len(sscs), len(gen["replay"])))
+        nscripts += len(sscs)
+        rep.cov["tlc_runs"].append({"module": "Gen_Client", "cfg": "GC_%s.cfg" % g, "generated": gen["generated"],
+                                    "distinct": gen["distinct"], "wall_s": gen["wall_s"],
+                                    "note": "simulation of Client.tla: %d environment scripts emitted and run against the real client" % len(sscs)})
+        scs = scs + sscs
         total += len(scs)
         ok, rejs, stats = vlib.validate_traces("MC_Trace_Client", "TC_%s.cfg" % g, scs, "%s-%s" % (pid, g))
         rep.cov["states"] += stats["distinct"]
@@ -93,6 +114,7 @@ def run_client(pid, tier, rep, design_cfgs, asis, groups, nscen):
     rep.cov["evaluations"] += total
     rep.cov["distinct_nontrivial"] += len(nontrivial)
     rep.cov["scenarios_accepted"] = accepted
+    rep.cov["scenarios_driven_by_tlc_generated_scripts"] = nscripts
     rep.cov["scenarios_rejected_for_other_property"] = foreign
     rep.assumptions += ["the real client runs on a current_thread tokio runtime over an in-memory transport; schedules are varied by seeded yields, "
                         "not enumerated", "TLC explores every interleaving of the MODEL for the bounded configs; the code is checked on the recorded executions"]
